@@ -209,7 +209,8 @@ class Ctx:
         """Run TLC on spec/<module>.tla with spec/<cfg>.cfg (default <module>.cfg) in the scratch dir."""
         cfg = cfg or module
         meta = tempfile.mkdtemp(prefix="meta-", dir=self.scratch)
-        jopts = ["-XX:+UseParallelGC", "-Xss512m"]
+        # few GC / JIT threads per JVM: sharded validation runs many TLC processes side by side
+        jopts = ["-XX:+UseParallelGC", "-XX:ParallelGCThreads=2", "-XX:TieredStopAtLevel=1", "-Xss512m"]
         if heap:
             jopts.append("-Xmx" + heap)
         if dfs:
